@@ -148,6 +148,10 @@ func threadRun(L *LState) {
 			if parent := L.Parent; parent != nil {
 				if L.wrapped {
 					L.Push(lv)
+					// the coroutine is dead: control returns to the resumer, where the error is re-raised
+					L.G.CurrentThread = parent
+					L.Parent = nil
+					L.kill()
 					parent.Panic(L)
 				} else {
 					L.SetTop(0)
